@@ -109,6 +109,11 @@ fn apply(level: &mut Arc<PriceLevel>, generator: &Arc<UuidGenerator>, op: &Value
             Err(e) => json!({"update": "err", "error": e.to_string()}),
         },
         "observe" => json!({}),
+        "next" => {
+            let n = op["n"].as_u64().unwrap_or(1);
+            let ids: Vec<String> = (0..n).map(|_| generator.next().to_string()).collect();
+            json!({"ids": ids})
+        }
         "restore_snapshot" => {
             let snap = level.snapshot();
             match PriceLevel::from_snapshot(snap) {
@@ -324,7 +329,11 @@ fn run_concurrent(script: &Value) -> Value {
     let price = script["price"].as_u64().unwrap();
     let ns = Uuid::from_str(script["namespace"].as_str().unwrap()).unwrap();
     let mut level = Arc::new(PriceLevel::new(price));
-    let generator = Arc::new(UuidGenerator::new(ns));
+    let generator = Arc::new(match script.get("generator_counter").and_then(|c| c.as_u64()) {
+        // the generator is (de)serializable: that is the public way to obtain one that has already issued ids
+        Some(c0) => serde_json::from_value::<UuidGenerator>(json!({"namespace": ns.to_string(), "counter": c0})).unwrap(),
+        None => UuidGenerator::new(ns),
+    });
     for op in script["setup"].as_array().unwrap() {
         apply(&mut level, &generator, op);
     }
